@@ -1,4 +1,6 @@
 import LayerModel.Chain.Ledger
+import Mathlib.Tactic.Linarith
+import LayerModel.Lemmas.FeeStake
 
 /-!
 # C05 — the staked-token ledger is always backed by the staking pools
@@ -52,3 +54,113 @@ example : wf (.giveBack 10 [3, 3, 3]) ∧ slack (step ⟨100, 100⟩ (.giveBack 
   · decide
 
 end Layer.Ledger
+
+
+/-! ## Fee paid from stake (`FeefromReporterStake`, model `Layer.FeeStake`; helper lemmas in `Lemmas/FeeStake.lean`) -/
+namespace Layer.FeeStake
+open Layer
+
+/-- **C05 (the per-backer record of a fee paid from stake sums to what was taken).**  For every group of selectors, every set of
+delegations and every fee the keeper accepts, each record entry equals what was unbonded at that delegation — so the record sums to
+the amount that left the bonded pool and the ledger. -/
+theorem C05_fee_record_sums (sels : List Selector) (fee : Int) (os : List Origin) (h : feeFromStake sels fee = some os) :
+    (∀ o ∈ os, o.recorded = o.taken) ∧ recordedSum os = moved os := by
+  have h1 : ∀ o ∈ os, o.recorded = o.taken := by
+    unfold feeFromStake at h
+    simp only [] at h
+    split at h
+    · simp at h
+    · simp only [Option.some.injEq] at h
+      subst h
+      intro o ho
+      obtain ⟨s, _, hs⟩ := List.mem_flatMap.mp ho
+      exact takeFrom_recorded _ _ _ o hs
+  refine ⟨h1, ?_⟩
+  unfold recordedSum moved
+  congr 1
+  exact List.map_congr_left h1
+
+/-- **C05 (counterexample before fix c715962).**  A selector whose first delegation (100) cannot cover its share (300): the old record
+held 200 — what was still to take — for the delegation from which 100 was taken, and summed to 400 for 300 moved. -/
+theorem C05_fee_record_counterexample :
+    let os := takeFromOld "s" [⟨"v1", 100⟩, ⟨"v0", 1000⟩] (Dec.ofInt 300)
+    moved os = 300 ∧ recordedSum os = 400 := by decide
+
+/-- **C05 (a fee from stake never overdraws a delegation).**  Every entry takes a non-negative amount, from a delegation of the
+selector it names, and at most what that delegation holds. -/
+theorem C05_fee_within_delegations (sels : List Selector) (fee : Int) (os : List Origin) (hf : 0 ≤ fee)
+    (hd : ∀ s ∈ sels, ∀ d ∈ s.dels, 0 ≤ d.tokens) (h : feeFromStake sels fee = some os) :
+    ∀ o ∈ os, 0 ≤ o.taken ∧ ∃ s ∈ sels, s.addr = o.del ∧ ∃ d ∈ s.dels, d.val = o.val ∧ o.taken ≤ d.tokens := by
+  unfold feeFromStake at h
+  simp only [] at h
+  split at h
+  · simp at h
+  · simp only [Option.some.injEq] at h
+    subst h
+    intro o ho
+    obtain ⟨s, hs, hso⟩ := List.mem_flatMap.mp ho
+    have hsel : 0 ≤ selTokens s := tokens_sum_nonneg _ (hd s hs)
+    have htot : 0 ≤ totalTokens sels := by
+      unfold totalTokens
+      have : ∀ l : List Selector, (∀ s ∈ l, ∀ d ∈ s.dels, 0 ≤ d.tokens) → 0 ≤ (l.map selTokens).sum := by
+        intro l hl
+        induction l with
+        | nil => simp
+        | cons x xs ih =>
+          have := tokens_sum_nonneg _ (hl x (by simp)); have := ih (fun y hy => hl y (by simp [hy]))
+          simp only [List.map_cons, List.sum_cons]; unfold selTokens at *; omega
+      exact this sels hd
+    obtain ⟨a, b, d, hdm, c⟩ := takeFrom_within s.addr s.dels _ (share_nonneg _ _ _ hsel htot hf) (hd s hs) o hso
+    exact ⟨a, s, hs, b.symm, d, hdm, c⟩
+
+/-- **C05 / C13 (how much a fee paid from stake moves).**  For every group of selectors with any delegations and every fee (below
+10^18 loya) that the keeper accepts, the amount that leaves the bonded pool for the dispute account lies strictly between
+`fee − 2·n` and `fee + n`, `n` the number of selectors: each selector's share is rounded and cut to whole loya on its own.  The
+dispute module nevertheless books the whole `fee` (recorded finding from-bond-fee-dust: the difference is missing from, or left over
+in, the dispute account). -/
+theorem C05_fee_moved_bounds (sels : List Selector) (fee : Int) (os : List Origin)
+    (hd : ∀ s ∈ sels, ∀ d ∈ s.dels, 0 ≤ d.tokens) (hf : 0 < fee) (hfP : fee < Dec.prec)
+    (h : feeFromStake sels fee = some os) :
+    fee - 2 * sels.length < moved os ∧ moved os < fee + sels.length := by
+  obtain ⟨hT0, hle⟩ := selTokens_le_total sels hd
+  unfold feeFromStake at h
+  simp only [] at h
+  split at h
+  · simp at h
+  · rename_i hnot
+    simp only [Option.some.injEq] at h
+    subst h
+    have hfT : fee ≤ totalTokens sels := by unfold Dec.ofInt Dec.prec at hnot; omega
+    have hT : 0 < totalTokens sels := by omega
+    rw [moved_flatMap]
+    -- every selector's contribution, by `takeFrom_sum` and `sel_bounds`
+    have hb : ∀ s ∈ sels, selTokens s * fee - 2 * totalTokens sels <
+          moved (takeFrom s.addr s.dels (share (selTokens s) (totalTokens sels) fee)) * totalTokens sels ∧
+        moved (takeFrom s.addr s.dels (share (selTokens s) (totalTokens sels) fee)) * totalTokens sels <
+          selTokens s * fee + totalTokens sels := by
+      intro s hs
+      have ht : 0 ≤ selTokens s := tokens_sum_nonneg _ (hd s hs)
+      rw [takeFrom_sum s.addr s.dels _ (share_nonneg _ _ _ ht hT0 (by omega)) (hd s hs)]
+      exact sel_bounds (selTokens s) (totalTokens sels) fee ht hT (by omega) hfP hfT
+    obtain ⟨lo, hi⟩ := sum_bounds (totalTokens sels) fee sels _ hb
+    have hn : (1 : Int) ≤ sels.length := by
+      cases sels with
+      | nil => simp [totalTokens] at hT
+      | cons x xs => simp only [List.length_cons]; push_cast; omega
+    constructor
+    · by_contra hc
+      have : (List.map (fun s => moved (takeFrom s.addr s.dels (share (selTokens s) (totalTokens sels) fee))) sels).sum ≤ fee - 2 * sels.length := by omega
+      have := Int.mul_le_mul_of_nonneg_right this (Int.le_of_lt hT)
+      nlinarith
+    · by_contra hc
+      have : fee + sels.length ≤ (List.map (fun s => moved (takeFrom s.addr s.dels (share (selTokens s) (totalTokens sels) fee))) sels).sum := by omega
+      have := Int.mul_le_mul_of_nonneg_right this (Int.le_of_lt hT)
+      nlinarith
+
+/-- the shortfall occurs (the history of the recorded finding): a reporter with one selector that delegates to two validators pays
+55 000 000 from stake; 54 999 999 are moved.  The premises of the theorems above are satisfiable. -/
+theorem C05_fee_short_counterexample :
+    (feeFromStake [⟨"v1", [⟨"v1", 1054767137⟩]⟩, ⟨"a3", [⟨"v1", 100000⟩, ⟨"v0", 5547792⟩]⟩] 55000000).map moved = some 54999999 := by
+  decide
+
+end Layer.FeeStake
